@@ -35,18 +35,18 @@ Lemma refuted_sameday :
   run_o w_sameday_c false w_sameday_ts = Some [false; false; false].
 Proof. split; [refutes_tac | split; vc]. Qed.
 
-(* 2: wrapping week Friday 09:00 -> Monday 17:00, polled every minute from Thursday 23:59:
-   still active on Tuesday at noon (it closes Tuesday 17:00, a day late) *)
+(* 2: wrapping week Friday 09:00 -> Monday 17:00, polled every minute from Monday 16:59
+   (inside the window, flag on): still active on Tuesday at noon (it closes Tuesday 17:00, a day late) *)
 Definition w_wrap_c : sched := mkSched (hms_ns 9 0 0) (hms_ns 17 0 0) 0 0 5 1.
-Definition w_wrap_ts : list Z := poll (at_ 4 23 59 0) ns_minute (Z.to_nat 6800).
+Definition w_wrap_ts : list Z := poll (at_ 8 16 59 0) ns_minute (Z.to_nat 1200).
 Lemma refuted_wrapping :
-  refutes w_wrap_c false w_wrap_ts /\ start_consistent w_wrap_c false w_wrap_ts = true /\
-  exists bits i, run_o w_wrap_c false w_wrap_ts = Some bits /\
+  refutes w_wrap_c true w_wrap_ts /\ start_consistent w_wrap_c true w_wrap_ts = true /\
+  exists bits i, run_o w_wrap_c true w_wrap_ts = Some bits /\
     nth_error w_wrap_ts i = Some (at_ 9 12 0 0) /\ nth_error bits i = Some true /\
     active 5 1 (hms_ns 9 0 0) (Some (hms_ns 17 0 0)) (at_ 9 12 0 0) = false.
 Proof.
   split; [refutes_tac | split; [vc|]].
-  eexists. exists (Z.to_nat 6481). split; [vc | split; [vc | split; vc]].
+  eexists. exists (Z.to_nat 1141). split; [vc | split; [vc | split; vc]].
 Qed.
 
 (* 3: first check inside the window (Tuesday 20:00 of Monday-Friday) with the flag off:
@@ -85,14 +85,14 @@ Lemma refuted_late_end :
 Proof. split; [refutes_tac | split; [vc | split; vc]]. Qed.
 
 (* ================================================================== non-vacuity *)
-(* Monday-Friday 09:00-17:00 at UTC+60 min, polled every minute for three weeks from a Sunday
-   midnight: every hypothesis of the weekly theorem holds, and the flag is on 3 times 6241 minutes *)
+(* Monday-Friday 09:00-17:00 at UTC+60 min, polled every minute for eight days from a Sunday
+   midnight: every hypothesis of the weekly theorem holds, and the flag is on for 6241 polls *)
 Definition nv_c : sched := mkSched (hms_ns 9 0 0) (hms_ns 17 0 0) 0 60 1 5.
-Definition nv_ts : list Z := poll sunday ns_minute (Z.to_nat 30240).
+Definition nv_ts : list Z := poll sunday ns_minute (Z.to_nat 11520).
 Lemma nonvacuous_weekly :
   ranges_okb nv_c = true /\ weekly_hyp 1 5 (hms_ns 9 0 0) (hms_ns 17 0 0) = true /\
   instants_okb nv_c nv_ts = true /\ gaps_ok nv_ts = true /\ start_consistent nv_c false nv_ts = true /\
   exists bits, run_o nv_c false nv_ts = Some bits /\
-    Z.of_nat (length (filter (fun b => b) bits)) = 3 * 6241 /\ Z.of_nat (length bits) = 30240.
+    Z.of_nat (length (filter (fun b => b) bits)) = 6241 /\ Z.of_nat (length bits) = 11520.
 Proof. split; [vc | split; [vc | split; [vc | split; [vc | split; [vc |]]]]]. eexists. split; [vc | split; vc]. Qed.
 
